@@ -119,6 +119,13 @@ fn helpers_all(c: &Data) -> String {
     }
 }
 
+fn unhex(h: &str) -> String {
+    let b: Vec<u8> = (0..h.len() / 2)
+        .map(|i| u8::from_str_radix(&h[2 * i..2 * i + 2], 16).unwrap_or(b'?'))
+        .collect();
+    String::from_utf8_lossy(&b).into_owned()
+}
+
 pub fn run(args: &[&str]) -> String {
     if args.len() < 3 {
         return "bad-args".to_string();
@@ -151,6 +158,10 @@ pub fn run(args: &[&str]) -> String {
         "empty" => cell_all(&Data::Empty),
         "string" => cell_all(&Data::String("1900-01-01".to_string())),
         "error" => cell_all(&Data::Error(CellErrorType::Div0)),
+        // ISO cells (ods): value = the text as lowercase hex; implementation only (the model has
+        // no ISO cells: chrono's parser is external), used for "helper = the cell's own conversion"
+        "iso" => cell_all(&Data::DateTimeIso(unhex(args[1]))),
+        "isodur" => cell_all(&Data::DurationIso(unhex(args[1]))),
         _ => "bad-kind".to_string(),
     }
 }
